@@ -730,8 +730,8 @@ def negotiate_version(version, supported_versions=None):
     if version > supported_versions[-1]:
         return supported_versions[-1]  # highest version we support
 
-    while True:
-        next_highest_version = supported_versions.pop()
+    # (do not modify supported_versions: it is the list of the service)
+    for next_highest_version in reversed(supported_versions):
         if version >= next_highest_version:
             return next_highest_version
 
